@@ -27,15 +27,18 @@ type store struct {
 	gen   int
 	data  map[string]string
 	alive bool // data exists (memory: until CloseAndDelete; disk: directory exists)
+	inc   int  // incarnation: grows whenever an on-disk store is opened while no handle of it is open
 }
 
 type handle struct {
-	id     int
-	st     *store
-	b      *rosmar.Bucket
-	ds     sgbucket.DataStore // the default collection, fetched while the handle was open
-	closed bool               // closed through Close
-	dead   bool               // its store was deleted
+	id         int
+	st         *store
+	b          *rosmar.Bucket
+	ds         sgbucket.DataStore // the default collection, fetched while the handle was open
+	closed     bool               // closed through Close
+	dead       bool               // its store was deleted
+	inc        int                // the store's incarnation this handle belongs to
+	incDeleted bool               // the store was deleted through a handle of this very incarnation
 }
 
 type Model struct {
@@ -167,8 +170,11 @@ func (m *Model) Open(ni, ui int, mode rosmar.OpenMode) {
 	if target == nil {
 		target = m.newStore(name, url, disk)
 	}
+	if target.disk && m.openCount(target) == 0 {
+		target.inc++ // nobody had it open: rosmar builds a new store object for the same files
+	}
 	m.registry[name] = target
-	h := &handle{id: len(m.handles), st: target, b: b, ds: dsOf(b)}
+	h := &handle{id: len(m.handles), st: target, b: b, ds: dsOf(b), inc: target.inc}
 	if h.ds == nil {
 		m.Report("open.nodatastore", "DefaultDataStore() of a freshly opened handle is nil")
 	}
@@ -242,12 +248,25 @@ func (m *Model) CloseAndDelete(h *handle) {
 		m.Report("delete.panic", fmt.Sprintf("CloseAndDelete panicked: %v", err))
 	}
 	if h.dead {
-		return // deleting an already deleted store: nothing to expect beyond "no panic, nobody else harmed"
+		// deleting an already deleted store: nothing to expect beyond "no panic, nobody else harmed" - in particular
+		// not the bucket that has been created at the same place since
+		// (only for a handle of the incarnation the deletion went through: a handle left over from an earlier
+		// open-close cycle of the same files is indistinguishable, for rosmar, from the clean-up idiom "Close, then
+		// CloseAndDelete through the closed handle", and what it does to a bucket created since is not pinned)
+		if cur := m.disk[h.st.url]; h.st.disk && h.incDeleted && cur != nil && cur != h.st && cur.alive {
+			if _, serr := os.Stat(filepath.Join(dirOf(cur.url), "rosmar.sqlite3")); serr != nil {
+				m.Report("delete.stale-destroys-successor", fmt.Sprintf("CloseAndDelete through h%d, whose bucket had been deleted long before, removed the database file of the bucket created at the same URL since (%v)   [steps: %s]", h.id, serr, strings.Join(m.Steps, " ")))
+			}
+		}
+		return
 	}
 	s := h.st
 	for _, o := range m.handles {
 		if o.st == s {
 			o.dead = true
+			if o.inc == h.inc {
+				o.incDeleted = true
+			}
 		}
 	}
 	s.alive = false
@@ -447,6 +466,13 @@ func (m *Model) RandomStep(r *rng.R) {
 	case x < 15:
 		// CloseAndDelete through an open handle, or (the usual clean-up idiom) through a handle that was closed
 		// before, provided no other handle of that bucket is open at that moment
+		if r.Chance(1, 4) {
+			// ... or through a leftover handle of a bucket that was deleted before (a successor may exist by now)
+			if h := m.pick(r, func(h *handle) bool { return h.dead && h.incDeleted }); h != nil {
+				m.CloseAndDelete(h)
+				return
+			}
+		}
 		if h := m.pick(r, func(h *handle) bool { return !h.dead && (!h.closed || m.openCount(h.st) == 0) }); h != nil {
 			m.CloseAndDelete(h)
 		}
